@@ -19,6 +19,14 @@ CHECKS = {
   technique="TLA+ spec (Streaming.tla) with flush and compaction interleaved at store-call granularity and tombstone GC, model-checked with TLC; TLC-enumerated interleavings (495 schedules) gate the real Compactor and the real flush on a scripted ObjectStore; traces validated by TLC (StreamTrace.tla)",
   text="design level: RecoveryStable and ManifestSound for the ideal protocol under every interleaving, and counterexamples for blind manifest overwrite, latest-wins compaction and GC ignoring uncompacted segments; implementation level: sequential compaction workloads with faults, tombstone-GC layouts with a segment above the size target, and all interleavings of the 4 flush calls with the 8 compaction calls are executed on the real code with a real recovery after every mutating call",
   note="tombstone age in the code's own reading (Lamport time vs now - ttl under the harness clock); the two open findings are reported as KNOWN-FINDING"),
+ "C01": dict(
+  technique="TLA+ spec (RedisKeyspace.tla: ~60 commands, expiry, i64 arithmetic on decimal digit sequences) model-checked with TLC; TLC-exported command/tick sequences rendered to RESP, parsed by the real parser and run on the real CommandExecutor; wide random traces validated step by step by TLC (KsTrace.tla)",
+  text="the specification is the oracle for every reply and for the full visible keyspace (key, type, value, deadline) after every step; TLC-exported sequences cover every keyspace reachable in the MC command universe, random sequences cover i64/index limits, binary and empty strings, option permutations and clock jumps to exactly a deadline and one millisecond before",
+  note="Redis 7 semantics as written in the spec ([doc]/[src] tags); two loose rules; errors compared by class; UTF-8 keys/fields/members; quarter-integer scores"),
+ "C17": dict(
+  technique="TLA+ spec (RedisKeyspace.tla) model-checked with TLC for ErrorChangesNothing / ReadOnlyChangesNothing; failure-biased traces of the real executor validated by TLC (KsTrace.tla) with model-independent rules on the recorded keyspaces",
+  text="for every recorded step whose reply is an error or whose command the code's is_read_only() table classifies as read-only, the recorded visible keyspace before and after (keys, types, values, deadlines at that instant) must be equal, and the code's read-only table must be contained in the model's; 35% of commands come from a pool of out-of-model failures (bad arity/options, stubs, bit/float/scan commands, failing scripts)",
+  note="scripts failing after a successful redis.call excluded; MULTI/EXEC excluded (C05)"),
  "C06": dict(
   technique="TLA+ spec (Replication.tla: executor + CRDT state + clock per node, reordering/duplicating/delaying network, anti-entropy) model-checked with TLC; TLC-exported step sequences replayed on real ReplicatedShardActors with the harness as network; traces validated by TLC (ReplTrace.tla)",
   text="design level: ServedIsState at every step and Converged at quiescence on 3 nodes for register and hash command sets; each repaired defect and the open type-change finding are reproduced by an as-built switch; implementation level: every exported configuration and thousands of random runs (2-4 nodes, all listed commands, duplicates, delays, anti-entropy) are replayed on the real actors and TLC compares replication state and served value of EVERY node after EVERY step, and agreement whenever nothing is in flight",
